@@ -943,12 +943,75 @@ def _via_nonmem_add_cmt(spec):
         _PLAIN[0] = old_plain
 
 
+def _via_nonmem_ratio_constant_subs(spec):
+    """a duplicate-compartment-name violation that disappears when nonmem/update.py:add_parameters_ratio does not
+    substitute a constant numerator/denominator in the ODE system and re-reads its compartments after subs
+    (attribution by ablation: the duplication happens inside update_source(), whichever function called it)"""
+    import pharmpy.model.external.nonmem.update as upd
+    from pharmpy.basic import Expr
+    from pharmpy.model import Assignment, CompartmentalSystem, CompartmentalSystemBuilder, Statements, output
+
+    orig = upd.add_parameters_ratio
+
+    def patched(model, numpar, denompar, source, dest):
+        statements = model.statements
+        if not statements.find_assignment(numpar) or not statements.find_assignment(denompar):
+            odes = upd.get_odes(model)
+            rate = odes.get_flow(source, dest)
+            numer, denom = rate.as_numer_denom()
+            par1 = Assignment.create(Expr.symbol(numpar), numer)
+            par2 = Assignment.create(Expr.symbol(denompar), denom)
+            new1, new2 = Statements(), Statements()
+            if rate != par1.symbol / par2.symbol:
+                if not statements.find_assignment(numpar):
+                    if not numer.is_number():
+                        odes = odes.subs({numer: Expr.symbol(numpar)})
+                    new1 = par1
+                if not statements.find_assignment(denompar):
+                    if not denom.is_number():
+                        odes = odes.subs({denom: Expr.symbol(denompar)})
+                    new2 = par2
+                if source != output:
+                    source = odes.find_compartment(source.name)
+                if dest != output:
+                    dest = odes.find_compartment(dest.name)
+            cb = CompartmentalSystemBuilder(odes)
+            cb.add_flow(source, dest, par1.symbol / par2.symbol)
+            model = model.replace(statements=statements.before_odes + new1 + new2 + CompartmentalSystem(cb) + statements.after_odes)
+        return model
+
+    old_plain = _PLAIN[0]
+    _PLAIN[0] = True
+    try:
+        try:
+            _run(spec, 'api')
+            return False
+        except Violation as v:
+            if 'duplicate-compartment-name' not in v.clause:
+                return False
+        except Reject:
+            return False
+        upd.add_parameters_ratio = patched
+        try:
+            _run(spec, 'api')
+        except Violation as v:
+            return 'duplicate-compartment-name' not in v.clause
+        except Reject:
+            return False
+        return True
+    finally:
+        upd.add_parameters_ratio = orig
+        _PLAIN[0] = old_plain
+
+
 class _ChainHas(dict):
     """'chain_has:<fn>' -> predicate: the chain of the spec contains table function <fn>"""
 
     def get(self, key, default=None):
         if key == 'via_nonmem_add_cmt':
             return _via_nonmem_add_cmt
+        if key == 'via_nonmem_ratio_constant_subs':
+            return _via_nonmem_ratio_constant_subs
         if isinstance(key, str) and key.startswith('chain_has:'):
             fn = key[len('chain_has:'):]
             return lambda spec, _fn=fn: _fn in chain_names(spec)
